@@ -25,3 +25,16 @@ Theorem C11_resume_concat :
       = D Tm t0 tadd St Rec updf (D Tm t0 tadd St Rec updf dt0 v0 n) (V Tm t0 tadd St Rec updf dt0 v0 n) m.
 Proof. exact resume_concat. Qed.
 Print Assumptions C11_resume_concat.
+
+(* ... hence every frame of the continuation (any save interval) is the uninterrupted run's frame n steps later *)
+Theorem C11_resume_frames :
+  forall (Tm : Type) (t0 : Tm) (tadd : Tm -> Tm -> Tm) (St Rec : Type)
+         (updf : nat -> Tm -> Tm -> St -> Tm * St * Rec) (dt0 : Tm) (v0 : St),
+    (forall i j t t' d v, updf i t d v = updf j t' d v) ->
+  forall (k n m : nat) (f : frame Tm St Rec),
+    In f (run_frames Tm t0 tadd St Rec updf k
+            (D Tm t0 tadd St Rec updf dt0 v0 n) (V Tm t0 tadd St Rec updf dt0 v0 n) m) ->
+    f_vals _ _ _ f = V Tm t0 tadd St Rec updf dt0 v0 (n + f_step _ _ _ f) /\
+    f_dt _ _ _ f = D Tm t0 tadd St Rec updf dt0 v0 (n + f_step _ _ _ f).
+Proof. exact resume_frames. Qed.
+Print Assumptions C11_resume_frames.
